@@ -486,6 +486,7 @@ def stress_round(ctx, seed, interleavings, case_no):
         # a headers dict the caller keeps and passes again (it names the business operation the requests belong to:
         # many requests, also of other threads, carry the same value there)
         reused = {'X-Worker': str(i), 'X-Correlation-ID': "op-%d" % (i % 2), 'X-Trace-ID': "tr-%d" % seed}
+        reused_empty = {}
         wrng = random.Random(seed * 31 + i)
         try:
             start.wait()
@@ -520,7 +521,13 @@ def stress_round(ctx, seed, interleavings, case_no):
                 elif k % 10 == 2:
                     # headers in a mapping that never raises KeyError (no id of the caller's in it)
                     verb("/p", headers=collections.defaultdict(str, {'X-Worker': str(i)}), **kw)
-                elif k % 10 in (5, 6, 8):
+                elif k % 10 == 6:
+                    # (a headers dict the caller keeps that has nothing in it - and keeps having nothing in it)
+                    verb("/p", headers=reused_empty, **kw)
+                    if reused_empty:
+                        errors.append("the caller's empty headers dict was filled: %r" % sorted(reused_empty))
+                        reused_empty.clear()
+                elif k % 10 in (5, 8):
                     verb("/p", headers=reused, **kw)
                 elif k % 10 == 9 and 'params' not in kw:
                     try:
